@@ -37,7 +37,9 @@ MATH_ENVS = ['equation', 'equation*', 'eqnarray', 'eqnarray*', 'align', 'align*'
 DELIMS = [('$', '$'), ('\\(', '\\)'), ('\\[', '\\]'), ('$$', '$$')]
 DISCARDS = ['\\label{%s}', '\\hspace{%s}', '\\hspace*{%s}', '\\documentclass[%s]{%s}', '\\usepackage[%s]{%s}',
             '\\setlength{%s}{%s}', '\\setcounter{%s}{%s}', '\\hypersetup{%s}', '\\hphantom{%s}', '\\vphantom{%s}',
-            '\\definecolor{%s}{%s}{%s}', '\\color{%s}', '\\pagecolor[%s]{%s}', '\\newcommand{\\foo}{%s}']
+            '\\definecolor{%s}{%s}{%s}', '\\color{%s}', '\\pagecolor[%s]{%s}', '\\newcommand{\\foo}{%s}',
+            # later optional arguments (LaTeX allows blanks in front of them, see discard())
+            '\\newcommand{\\foo}[1]{%s}', '\\newcommand*{\\foo}[2][%s]{%s}', '\\renewcommand{\\foo}[1]{%s}']
 MATH_MODES = ['text', 'with-delimiters', 'verbatim', 'remove']
 SPACES = [False, 'based-on-source', 'macros', 'except-in-equations', True, 'default']
 FILL = [None, True, 30]
@@ -51,7 +53,7 @@ def plan(tier, seed):
 
 def floors(tier):
     return {'evaluations': 20000, 'distinct_nontrivial': 10000, 'comment_markers_checked': 20000,
-            'formula_markers_checked': 20000, 'discard_markers_checked': 5000, 'histkeys:position': 15,
+            'formula_markers_checked': 20000, 'discard_markers_checked': 5000, 'discards_with_blanks_between_arguments': 300, 'histkeys:position': 15,
             'histkeys:math_env': 15, 'histkeys:option_cell': 24, 'k2_witness_checked': 1,
             'formulas_with_escaped_active_characters': 500, 'histkeys:entry_point': 3, 'crlf_documents': 500, 'hist:entry_point:latex2text()': 1000}
 
@@ -66,6 +68,7 @@ class Gen(object):
         self.n = 0
         self.markers = []       # dicts
         self.formulas = []
+        self.blank_layouts = 0
 
     def mark(self, kind, ctx, **kw):
         self.n += 1
@@ -188,6 +191,10 @@ class Gen(object):
             elif r < 0.45 and ctx['formula'] is None and not ctx.get('noformula'):
                 f += ' ' + self.formula(depth + 1, dctx)
             fills.append(f)
+        # blanks between the arguments (a blank, a tab or a single line end is allowed in front of any argument)
+        if rng.random() < 0.4:
+            t = re.sub(r'(?<=[}\]*])(?=[{\[])', lambda mm: rng.choice(['', ' ', '\n', '\t', '  ']), t)
+            self.blank_layouts += 1
         return t % tuple(fills)
 
     def document(self):
@@ -329,6 +336,7 @@ def run_shard(desc, rec):
         g = Gen(rng)
         doc = g.document()
         rec.monitor('formulas_with_escaped_active_characters', getattr(g, 'escaped_in_formula', 0))
+        rec.monitor('discards_with_blanks_between_arguments', g.blank_layouts)
         kinds = set(m['kind'] for m in g.markers)
         for _ in range(desc['optsper']):
             mm, kc, sp, ft = combos[ci % len(combos)]
